@@ -132,6 +132,8 @@ pub fn thresholds() -> Vec<f32> {
         beta / 59.5,
         0.081,
         0.018,
+        // where the PQ EOTF leaves zero: x^(1/m2) = c1
+        oracle::PQ_C1.powf(oracle::PQ_M2),
     ];
     v.sort_by(|a, b| a.partial_cmp(b).unwrap());
     v.into_iter().map(|x| x as f32).collect()
@@ -425,6 +427,70 @@ pub fn sweep(ctx: &Ctx, st: &mut Stats, prop: &'static str, stride: u64, chk: fn
     })
 }
 
+/// The values real video feeds to the curves: every code of the 8-, 10- and 12-bit grids k/(2^n-1) and of the
+/// limited-range grids (k-16s)/(219s), the 16-bit grid, and the library's own decode of the grey ramps at those
+/// depths (its f32 arithmetic may round differently). Tables indexed by code value are exact on these and nowhere else.
+pub fn code_grid_values() -> Vec<f32> {
+    let mut v: Vec<f32> = Vec::new();
+    for n in [8u32, 10, 12, 16] {
+        let max = (1u32 << n) - 1;
+        for k in 0..=max {
+            v.push(k as f32 / max as f32);
+            v.push((k as f64 / max as f64) as f32);
+            if n <= 12 {
+                let s = (1u32 << (n - 8)) as f32;
+                v.push(((k as f32 - 16.0 * s) / (219.0 * s)).clamp(0.0, 1.0));
+            }
+        }
+        if n <= 12 {
+            for full in [false, true] {
+                let c = crate::api::cfg(yuvxyb::MatrixCoefficients::BT709, TC::BT1886, CP::BT709, n as u8, full, (0, 0));
+                let half = 1u16 << (n - 1);
+                let codes: Vec<[u16; 3]> = (0..=max).map(|k| [k as u16, half, half]).collect();
+                if let Ok(y) = yuvxyb::Yuv::<u16>::new(crate::api::frame444::<u16>(&codes, codes.len(), 1, 0, 0), c) {
+                    if let Ok(r) = Rgb::try_from(&y) {
+                        v.extend(r.data().iter().map(|p| p[1]).filter(|x| (0.0..=1.0).contains(x)));
+                    }
+                }
+            }
+        }
+    }
+    v.sort_by(|a, b| a.partial_cmp(b).unwrap());
+    v.dedup_by(|a, b| a.to_bits() == b.to_bits());
+    v
+}
+
+pub fn code_grids(ctx: &Ctx, st: &mut Stats, prop: &'static str, chk: fn(&str, &Case, &mut Stats) -> Result<(), Violation>, dirs: &[Dir]) -> Vec<Violation> {
+    let vals = code_grid_values();
+    let mut jobs = Vec::new();
+    for t in SUP_TC.iter() {
+        for &d in dirs {
+            for c in 0..vals.len().div_ceil(8192) {
+                jobs.push((*t, d, c));
+            }
+        }
+    }
+    let _ = ctx;
+    par_sweep(ctx, st, jobs.len() as u64, |lo, hi, st| {
+        for j in lo..hi {
+            let (t, d, c) = jobs[j as usize];
+            let chunk = vals[c * 8192..((c + 1) * 8192).min(vals.len())].to_vec();
+            let n = chunk.len() as u64;
+            let case = Case { t, dir: d, vals: Vals::Explicit(chunk), mates: None };
+            let mut local = Stats::new();
+            local.sample_budget = 0;
+            if let Err(v) = chk(prop, &case, &mut local) {
+                return Some(v);
+            }
+            st.evaluations += 1;
+            st.comparisons += n;
+            st.nontrivial_by_construction += 1;
+            st.class("code_grid_blocks", 1);
+        }
+        None
+    })
+}
+
 /// images of 65536+ pixels (size-gated / threaded paths) for every curve and direction: pixel counts that
 /// are divisible by no small number, and the standard UHD / 4K / 8K frame sizes
 pub fn large_images(ctx: &Ctx, st: &mut Stats, prop: &'static str, chk: fn(&str, &Case, &mut Stats) -> Result<(), Violation>, dirs: &[Dir]) -> Vec<Violation> {
@@ -481,6 +547,10 @@ pub fn run(ctx: &Ctx, st: &mut Stats) -> Vec<Violation> {
     if !v.is_empty() {
         return v;
     }
+    v.extend(code_grids(ctx, st, "C03", check_named, &[Dir::ToLinear, Dir::ToGamma]));
+    if !v.is_empty() {
+        return v;
+    }
     let stride = if ctx.light { 1021 } else { ctx.pick(257, 1) };
     v.extend(sweep(ctx, st, "C03", stride, check_named, &[Dir::ToLinear, Dir::ToGamma]));
     if stride == 1 && v.is_empty() {
@@ -517,4 +587,4 @@ pub fn replay(v: &Value) -> Result<(), String> {
     check(&case, &mut Stats::new()).map_err(|v| v.message)
 }
 
-pub const RULE: &str = "cases = (curve in 14 supported, direction, batch of 1..768 values of [0,1] from 8 strata: uniform value, uniform bit pattern, +-64 ulp around every curve threshold, powers of two +-4 ulp, subnormal/tiny, dense below 1, feedback chain (each value is the library's result for the previous one), runs of repeated values, one-sided images of 4100+ samples with outliers at their ends; in a quarter of the cases each checked value sits in a pixel whose other two components are out-of-range mates) generated by proptest, plus one image of 65537 / 131101 / 262147 / 4194307 (thorough: 8300401) pixels per curve and direction, plus long single-thread call histories (periods 255, 256, 65535, 65536: the same value under neighbouring curves / the other direction exactly one period later must still convert like inside a whole image), plus a strided (quick) or complete (thorough) enumeration of all f32 in [0,1] in blocks of 65536; each value compared with the f64 defining formula (tol 2.5e-4; PQ to_gamma 5.7e-4; builds without fastmath 5e-5), Linear and BT.1886 aliases compared bitwise; non-trivial = batch containing a value strictly inside (0,1); distinct = by hash of (curve, direction, value bits)";
+pub const RULE: &str = "cases = (curve in 14 supported, direction, batch of 1..768 values of [0,1] from 8 strata: uniform value, uniform bit pattern, +-64 ulp around every curve threshold, powers of two +-4 ulp, subnormal/tiny, dense below 1, feedback chain (each value is the library's result for the previous one), runs of repeated values, one-sided images of 4100+ samples with outliers at their ends; in a quarter of the cases each checked value sits in a pixel whose other two components are out-of-range mates) generated by proptest, plus one image of 65537 / 131101 / 262147 / 4194307 (thorough: 8300401) pixels per curve and direction, plus the complete code grids (every k/(2^n-1) and limited-range (k-16s)/(219s) at 8/10/12 bit, k/65535, and the library's own decode of the grey ramps: ~90,000 values per curve and direction), plus long single-thread call histories (periods 255, 256, 65535, 65536: the same value under neighbouring curves / the other direction exactly one period later must still convert like inside a whole image), plus a strided (quick) or complete (thorough) enumeration of all f32 in [0,1] in blocks of 65536; each value compared with the f64 defining formula (tol 2.5e-4; PQ to_gamma 5.7e-4; builds without fastmath 5e-5), Linear and BT.1886 aliases compared bitwise; non-trivial = batch containing a value strictly inside (0,1); distinct = by hash of (curve, direction, value bits)";
